@@ -34,7 +34,8 @@ type Case struct {
 
 var twinKinds = []string{"reroot", "outgroup", "midpoint", "unroot", "prune", "collapse_len", "collapse_sup", "collapse_depth",
 	"resolve", "rotate", "sort", "rotate_node", "graft", "identical", "identical_one", "single_nodes",
-	"nni", "nni_double", "rename", "rename_auto", "rename_regexp", "shuffle_tips", "reinit", "clear_lengths", "clear_supports"}
+	"nni", "nni_double", "rename", "rename_auto", "rename_regexp", "shuffle_tips", "reinit", "clear_lengths", "clear_supports",
+	"comments_set", "comments_clear", "comments_add", "comments_set", "comments_add", "scale_lengths", "round_supports"}
 
 func baseOpts(thorough bool) gen.Opts {
 	o := gen.Opts{MinTips: 3, MaxTips: 10, BigTips: 30, Rooted: -1, MaxDeg: 5, Lens: gen.AnyPresence, LenVals: gen.Dyadic, Sups: gen.AnyPresence, InnerNames: gen.AnyPresence}
@@ -565,7 +566,7 @@ func TestC15Edits(t *testing.T) {
 	f := ref.F
 	h.Run(t, h.Spec[Case]{
 		Property: "C15", Name: "edits", Quick: 20000, Thorough: 800000,
-		Rule: "graft (every tip position, rooted/unrooted graft trees, fresh names): result equals the host model with the tip replaced by the graft's root, distances among old tips unchanged, look-ups updated; merge of rooted trees on disjoint tips (overlapping tips / unrooted input must be refused): both subtrees unchanged under a new root; identical tips (1-3 groups, 0-3 new tips each, zero-length tip branches frequent; groups with 0 or 2 existing members refused): old distances unchanged, new tip at distance 0 from its model and equidistant to all others; removal of single-child nodes (anywhere, chains, mixed absent/present lengths): none left, same split lengths and distances; subtree at every inner node = reference subtree; clone byte-identical incl. node and branch comments, supports, p-values; twin histories: 1-10 edits of 25 kinds applied to a clone/subtree (or to the source) while the other tree's text and structure are observed after every step. Non-trivial = multifurcating or rooted tree and (for twins) >= 3 applied edits",
+		Rule: "graft (every tip position, rooted/unrooted graft trees, fresh names): result equals the host model with the tip replaced by the graft's root, distances among old tips unchanged, look-ups updated; merge of rooted trees on disjoint tips (overlapping tips / unrooted input must be refused): both subtrees unchanged under a new root; identical tips (1-3 groups, 0-3 new tips each, zero-length tip branches frequent; groups with 0 or 2 existing members refused): old distances unchanged, new tip at distance 0 from its model and equidistant to all others; removal of single-child nodes (anywhere, chains, mixed absent/present lengths): none left, same split lengths and distances; subtree at every inner node = reference subtree; clone byte-identical incl. node and branch comments, supports, p-values; twin histories: 1-10 edits of 30 kinds (incl. comment, length and support edits) applied to a clone/subtree (or to the source) while the other tree's text and structure are observed after every step. Non-trivial = multifurcating or rooted tree and (for twins) >= 3 applied edits",
 		Gen: genCase, Check: check,
 		Anchors: []Case{
 			{Kind: "clone", Tree: &ref.Node{Com: []string{"r"}, Ch: []*ref.Node{{Name: "a", Len: f(1), BCom: []string{"bc"}}, {Name: "b", Len: f(2), Com: []string{"nc"}}, {Sup: f(0.5), Pv: f(0.1), Len: f(0.25), BCom: []string{"x"}, Ch: []*ref.Node{{Name: "c"}, {Name: "d"}}}}}},
